@@ -345,9 +345,12 @@ VARIANTS = [
     V( 'regex-copy-inherits-terminal', AUTO, "def __init__( self, name, terminal=False, alphabet=None,", "def __init__( self, name, terminal=None, alphabet=None,", fires=[ 'X-FROMREGEX' ] ),
     V( 'ncp-large-before-decoding', DEFAULTS, "parameters = self.decoding\n parameters.large = large\n connection = Connection( **parameters )\n self._NCP = connection.encoding\n self._large = large", "self._large		= large\n            connection		= Connection( **self.decoding )\n            self._NCP		= connection.encoding", fires=[ 'K-NCPSTATE' ] ),
     V( 'ncp-only-large-stored', DEFAULTS, "self._NCP = connection.encoding\n self._large = large", "self._large		= large", fires=[ 'K-NCPSTATE' ] ),
+    V( 'resolve-skips-contradicting-segment', DEVICE, "assert all( result[key] == term[key] for key in result if key in term and result[key] is not None ), \\\n \"Failed to override %r with path segment %r in path %r\" % ( result, term, path['segment'] )\n continue", "continue", fires=[ 'D-PATHSTOP' ] ),
+    V( 'resolve-contradiction-tested-by-loop-free-if', DEVICE, "assert all( result[key] == term[key] for key in result if key in term and result[key] is not None ), \\\n \"Failed to override %r with path segment %r in path %r\" % ( result, term, path['segment'] )\n continue",
+       "if any( key in term and result[key] is not None and result[key] != term[key] for key in result ):\n                raise AssertionError( 'Failed to override' )\n            continue", silent=[ 'D-PATHSTOP' ] ),
     V( 'pathstop-ignores-explicit-attribute', DEVICE, "or ( attribute is not True #   or a default attribute is supplied\n and 'attribute' not in term ) #     and the term didn't contain a supplied one", "or attribute is not True", fires=[ 'D-PATHSTOP' ] ),
     V( 'pathstop-skips-symbolic', DEVICE, "if ( 'symbolic' not in term # A symbolic term names a Tag: resolve it, or fail\n and result['class'] is not None", "if ( result['class'] is not None", fires=[ 'D-PATHSTOP' ], why='defect AC' ),
-    V( 'pathstop-break-hides-later-symbolic', DEVICE, "continue # All desired terms specified; done! (ie. ignore subsequent 'element')", "break # All desired terms specified; done! (ie. ignore subsequent 'element')", fires=[ 'D-PATHSTOP' ], why='defect AC' ),
+    V( 'pathstop-break-hides-later-symbolic', DEVICE, "% ( result, term, path['segment'] )\n continue", "% ( result, term, path['segment'] )\n            break", fires=[ 'D-PATHSTOP' ], why='defect AC' ),
     V( 'retag-old-attribute-stored-back', LOGIX, "instance.attribute[str(att)] \\\n = val['attribute']", "instance.attribute[str(att)] = attribute", fires=[ 'T-RETAG' ], why='defect AD' ),
     V( 'retag-dotted-form', LOGIX, "instance.attribute[str(att)] \\\n = val['attribute']", "instance.attribute[str(att)] = val.attribute", silent=[ 'T-RETAG' ] ),
     V( 'reserved-level-unchecked', DOT, "if mine in self.__invalid_keys__ or mine.startswith( '__' ):\n # Neither as a value, nor as a (newly created) level\n raise KeyError( \"A dotdict cannot support insertion of item/attribute with name {!r}\".format( mine ))\n if rest is not None:", "if not rest and ( mine in self.__invalid_keys__ or mine.startswith( '__' )):\n            raise KeyError( \"A dotdict cannot support insertion of item/attribute with name {!r}\".format( mine ))\n        if rest is not None:", fires=[ 'T-RESERVED' ], why='defect AF' ),
